@@ -421,6 +421,10 @@ class State(object):
         if ty.is_reflike and v.t.kind == 'none':
             return Val(ty, z3.IntVal(0))
         if ty.is_reflike and v.t.is_reflike:
+            if v.t.kind == ty.kind and v.t.kind != 'ref' and v.t.args and v.t.args[0].kind == 'unknown':
+                # an empty container literal receives its element type from the typed context
+                self.init_empty(v, ty)
+                return v
             if ty.kind == 'ref' or v.t.kind == ty.kind:
                 return Val(ty, v.z)
         if ty.kind == 'ref' and v.t.kind == 'ref':
@@ -433,6 +437,19 @@ class State(object):
         if ty.kind in ('str', 'bytes') and v.t.kind in ('str', 'bytes'):
             return Val(ty, v.z)
         raise Undecided('cannot coerce %r to %r (line %s)' % (v.t, ty, self.lineno))
+
+    def init_empty(self, v, ty):
+        """Give an (empty, freshly allocated) container of undeclared element type its type."""
+        if ty.kind == 'list':
+            es = T.sort_of(ty.args[0])
+            self.list_store(v.z, ty.args[0], SeqV(self.fresh(z3.ArraySort(z3.IntSort(), es), 'empty'), z3.IntVal(0)))
+        elif ty.kind == 'set':
+            self.set_store(v.z, ty.args[0], z3.K(T.sort_of(ty.args[0]), False))
+        elif ty.kind == 'dict':
+            kt, vt = ty.args
+            keys, mp, has = self.dict_parts(v.z, kt, vt)
+            self.dict_store(v.z, kt, vt, SeqV(keys.arr, z3.IntVal(0)), mp, z3.K(T.sort_of(kt), False))
+        v.t = ty
 
     def fresh_val(self, ty, hint='v'):
         if ty.kind == 'none':
